@@ -1737,6 +1737,8 @@ fn strings_case(p: &Params) -> String {
             tables.push((*b"name", t));
         }
         "post" => {
+            // number of distinct custom names (a name lookup walks the string data from its start)
+            let spread = if p.n("spread") > 0 { p.n("spread").min(40000) } else { 40000 };
             let mut t: Vec<u8> = vec![0u8; 32];
             t[0..4].copy_from_slice(&0x00020000u32.to_be_bytes());
             be16(&mut t, n as u16);
@@ -1745,10 +1747,10 @@ fn strings_case(p: &Params) -> String {
                 be16(&mut t, match i % 5 {
                     0 => (i % 258) as u16,
                     1 => 65535,
-                    _ => 258 + (i as u16 % 40000),
+                    _ => 258 + (i % spread) as u16,
                 });
             }
-            for i in 0..n.min(40000) {
+            for i in 0..n.min(spread) {
                 let l = [0usize, 1, 5, 63, 64, 255][i % 6];
                 t.push(l as u8);
                 t.extend(std::iter::repeat(b'a' + (i % 26) as u8).take(l));
@@ -1831,7 +1833,11 @@ pub fn strings_jobs(thorough: bool) -> Vec<Job> {
     let sizes: &[usize] = if thorough { &[0, 1, 2, 255, 256, 1000, 5461, 5462, 32767, 32768, 65534, 65535] } else { &[0, 1, 1000, 5461, 5462, 65535] };
     for &n in sizes {
         for what in ["name", "name1", "post"] {
-            v.push(job(name, format!("stress strings what={what} n={n}")));
+            if what == "post" && n > 10_000 && !thorough {
+                v.push(job(name, format!("stress strings what={what} n={n} spread=3000")));
+            } else {
+                v.push(job(name, format!("stress strings what={what} n={n}")));
+            }
         }
         for axes in [1usize, 8, 64] {
             if n > 10_000 && axes == 64 && !thorough {
